@@ -123,6 +123,7 @@ class CxxModule:
             self.ptypes = [t for _p, t in f.params]
             self.loc = f.loc
             self.byref = tuple(i for i, (_p, t) in enumerate(f.params) if _mutable_ref(t))
+            self.defaults = f.defaults
 
         @property
         def body(self):
@@ -140,6 +141,10 @@ class CxxModule:
                 self.funcs.setdefault(q, ns)
                 self.funcs.setdefault('%s/%d' % (q, len(f.params)), ns)
                 self.overloads.setdefault('%s/%d' % (q, len(f.params)), []).append(ns)
+                for n_ in range(f.required, len(f.params)):
+                    # callable with fewer arguments: the trailing parameters have default values
+                    self.funcs.setdefault('%s/%d' % (q, n_), ns)
+                    self.overloads.setdefault('%s/%d' % (q, n_), []).append(ns)
 
     def select(self, qname, nargs, argtypes, raw=None):
         """the overload / instantiation the compiler resolved the call to (the declaration the call expression refers to), else the
@@ -432,6 +437,14 @@ class AEval:
             params = params[1:]
         elif recv is not None:
             env['self'] = recv          # C++ member function: `this`
+        if len(args) < len(params) and self.typed:
+            # trailing arguments left out: the default arguments of the declaration, evaluated at the call
+            dfl = getattr(f, 'defaults', None) or []
+            lib_ = getattr(self.module, 'lib', None)
+            args = list(args)
+            while len(args) < len(params) and len(args) < len(dfl) and dfl[len(args)] is not None and lib_ is not None:
+                from .cxx import Lowerer
+                args.append(self.ev(Lowerer(lib_).expr(dfl[len(args)]), {}, depth + 1))
         if len(params) != len(args):
             raise AnalysisError('abstract evaluation: %s takes %d arguments, %d given' % (qname, len(params), len(args)))
         ptypes = getattr(f, 'ptypes', None) or [None] * len(params)
@@ -667,8 +680,10 @@ class AEval:
         """run the constructor of `cls` that takes `args` on `obj`; False when the class has no written constructor of that arity"""
         from .cxx import int_type
         lib = self.module.lib
-        ctors = [c for c in lib.fns(cls + '::' + cls.split('::')[-1]) if len(c.params) == len(args)
+        ctors = [c for c in lib.fns(cls + '::' + cls.split('::')[-1]) if c.required <= len(args) <= len(c.params)
                  and not (len(c.params) == 1 and cls.split('::')[-1] in (c.params[0][1] or ''))]
+        exact_ = [c for c in ctors if len(c.params) == len(args)]
+        ctors = exact_ or ctors
         if not ctors:
             return False
         if len(ctors) > 1:
@@ -690,7 +705,7 @@ class AEval:
                 ctors = good
         from types import SimpleNamespace
         c = ctors[0]
-        ns = SimpleNamespace(params=[p for p, _t in c.params], ptypes=[t for _p, t in c.params], body=c.body, loc=c.loc, byref=())
+        ns = SimpleNamespace(params=[p for p, _t in c.params], ptypes=[t for _p, t in c.params], body=c.body, loc=c.loc, byref=(), defaults=c.defaults)
         self.call_function(c.name, args, depth + 1, recv=obj, chosen=ns)
         return True
 
@@ -1058,8 +1073,9 @@ class AEval:
                         return _copy_value(args[0])         # copy construction
                     obj = AObj({n: None for n, _t, _x in flds}, cls=cls, ftypes={n: int_type(t) for n, t, _x in flds if int_type(t)})
                     obj.ptrs = frozenset(n for n, t, _x in flds if t and '*' in t)
-                    ctors = [c for c in lib.fns(cls + '::' + cls.split('::')[-1]) if len(c.params) == len(args)
+                    ctors = [c for c in lib.fns(cls + '::' + cls.split('::')[-1]) if c.required <= len(args) <= len(c.params)
                              and not (len(c.params) == 1 and cls.split('::')[-1] in (c.params[0][1] or ''))]
+                    ctors = [c for c in ctors if len(c.params) == len(args)] or ctors
                     if '<' in a[0]:
                         obj.inst = _targs_key(a[0].replace('const ', '').strip())
                         mine = [c for c in ctors if _targs_key(c.inst) == obj.inst]
@@ -1087,7 +1103,7 @@ class AEval:
                             if good:
                                 ctors = good
                         c = ctors[0]
-                        ns = SimpleNamespace(params=[p for p, _t in c.params], ptypes=[t for _p, t in c.params], body=c.body, loc=c.loc, byref=())
+                        ns = SimpleNamespace(params=[p for p, _t in c.params], ptypes=[t for _p, t in c.params], body=c.body, loc=c.loc, byref=(), defaults=c.defaults)
                         self.call_function(c.name, args, depth + 1, recv=obj, chosen=ns)
                         return obj
                     if len(flds) == len(args):
